@@ -3,7 +3,7 @@ SPECIFICATION Spec
 CHECK_DEADLOCK FALSE
 INVARIANTS PlanOut
 CONSTANTS
-  Kinds = {"token", "userpass", "kafka"}
+  Kinds = {"token", "userpass", "kafka", "kafka_off"}
   CreateFaults = {0}
   ReadFaults = {0, 1}
   PauseFaults = {0, 1, 2}
